@@ -880,7 +880,18 @@ fn comparison_fn(files: &[File], reg: &mut Registry, out: &mut String, spec: &Cm
             match e {
                 Expr::Binary(_) | Expr::Paren(_) | Expr::Group(_) | Expr::Cast(_) | Expr::Unary(_) | Expr::Lit(_) | Expr::Reference(_) => syn::visit_mut::visit_expr_mut(self, e),
                 Expr::Path(p) => {
-                    let known = p.path.segments.len() > 1 || self.reg.consts.contains_key(&last_ident(&p.path));
+                    // known: a registered constant or an enum variant; anything else (a local, `R::CONST`
+                    // of a generic parameter) is an operand
+                    let segs: Vec<String> = p.path.segments.iter().map(|s| s.ident.to_string()).collect();
+                    let last = segs.last().cloned().unwrap_or_default();
+                    let known = if segs.len() == 1 {
+                        self.reg.consts.contains_key(&last)
+                    } else {
+                        let ty = &segs[segs.len() - 2];
+                        self.reg.consts.contains_key(&format!("{}::{}", ty, last))
+                            || self.reg.enums.get(ty).map(|v| v.iter().any(|(n, _)| *n == last)).unwrap_or(false)
+                            || (ty.len() > 1 && self.reg.consts.contains_key(&last))
+                    };
                     if !known {
                         self.replace(e);
                     }
@@ -1197,5 +1208,42 @@ pub fn cflist_channel(files: &[File], _n: &[String], reg: &mut Registry, out: &m
     writeln!(out, "/-- `DynamicChannelPlan::process_join_accept`: a CFList frequency becomes `Channel::new(value, {}, {})` -/", lo, hi).unwrap();
     writeln!(out, "def DynamicChannelPlan.process_join_accept.cflist_dr_min : DR := {}\n", lo).unwrap();
     writeln!(out, "def DynamicChannelPlan.process_join_accept.cflist_dr_max : DR := {}\n", hi).unwrap();
+    Ok(())
+}
+
+/// the index / data-rate range tests of `DynamicChannelPlan::handle_new_channel` and `channel_dl_update`
+pub fn new_channel_guards(files: &[File], _n: &[String], reg: &mut Registry, out: &mut String) -> Res<()> {
+    for spec in [
+        CmpSpec {
+            ty_name: Some("DynamicChannelPlan"),
+            fn_name: "handle_new_channel",
+            needles: &["NUM_JOIN_CHANNELS"],
+            params: &[("index", "u8"), ("num_join_channels", "u8")],
+            lean: "DynamicChannelPlan.handle_new_channel.index_is_join_channel",
+        },
+        CmpSpec {
+            ty_name: Some("DynamicChannelPlan"),
+            fn_name: "handle_new_channel",
+            needles: &["NUM_CHANNELS_DYNAMIC"],
+            params: &[("index", "u8")],
+            lean: "DynamicChannelPlan.handle_new_channel.index_past_plan",
+        },
+        CmpSpec {
+            ty_name: Some("DynamicChannelPlan"),
+            fn_name: "handle_new_channel",
+            needles: &["NUM_DATARATES"],
+            params: &[("max_data_rate", "u8")],
+            lean: "DynamicChannelPlan.handle_new_channel.max_dr_in_table",
+        },
+        CmpSpec {
+            ty_name: Some("DynamicChannelPlan"),
+            fn_name: "channel_dl_update",
+            needles: &["NUM_CHANNELS_DYNAMIC"],
+            params: &[("index", "u8")],
+            lean: "DynamicChannelPlan.channel_dl_update.index_past_plan",
+        },
+    ] {
+        comparison_fn(files, reg, out, &spec)?;
+    }
     Ok(())
 }
